@@ -72,7 +72,11 @@ def explore_from(system, init_desc, build_init, depth, seed, space_name, max_sta
                 system.check(world, nxt, label, info, ctx)
                 system.check_state(nxt, ctx)
             except core.CaseTimeout:
-                ctx.fail('termination', f'{label} did not finish')
+                if core.TIMEOUT_IS_VIOLATION:
+                    ctx.fail('termination', f'{label} did not finish')
+                else:
+                    res.harness_errors.append({'case': {'init': init_desc, 'ops': hist + [label]}, 'trace': f'{label} did not finish within {core.CASE_TIMEOUT_S}s'})
+                    continue
             except Exception as e:  # noqa: BLE001
                 loc = core._pytenet_frame(e.__traceback__)
                 if loc is None:
